@@ -6,6 +6,7 @@
       [next_begin_finds_empty_slot], [slot_no_panic]
       [slot_rows_only_from_committed]
       [slot_progress]         a taken permit => some non-cancel step is enabled
+      [slot_step_decreases]   every step strictly decreases [smeasure] (no infinite trace)
     and for the seeded variant ([v = true], try_lock in drop): [slot_try_lock_refuted].
     Trusted assumptions: none beyond what Model/Tx.v / Model/TxSlot.v list. *)
 From Coq Require Import List Arith NArith Bool Lia.
@@ -265,6 +266,24 @@ Proof.
     + exists LN. destruct pN0 as [| | |?|?|?|?]; cbn in *; try discriminate;
         repeat match goal with |- context [match ?x with _ => _ end] => destruct x end;
         eexists; split; reflexivity.
+Qed.
+
+Ltac lens :=
+  repeat match goal with
+         | H : nth_error ?l ?k = Some _ |- _ =>
+             assert (k < length l) by (apply nth_error_Some; congruence); clear H
+         end.
+
+Theorem slot_step_decreases s l s' :
+  sreachable s -> sstep false c s l = Some s' -> smeasure c s' < smeasure c s.
+Proof.
+  intros Hre Hs. pose proof (sinv_reachable _ Hre) as Hinv.
+  destruct s as [pT0 rT0 hP0 pN0 sem0 mtx0 slot0 db0].
+  destruct Hinv as [_ _ _ _ _ _ H6]. cbn in H6.
+  unfold sstep, drop_permit, srelease in Hs.
+  destruct l; cbn in Hs; step_cases Hs; inversion Hs; subst; clear Hs;
+    try (pose proof (H6 _ (or_introl eq_refl))); try (pose proof (H6 _ (or_intror eq_refl)));
+    clear H6; lens; unfold smeasure, pc_measure, rb_measure, h_measure; cbn; lia.
 Qed.
 
 End Slot.
